@@ -163,8 +163,30 @@ MORE = {
     'C20': ' Guards are read with flag locals resolved, and the value of the update keys that reaches storage.write at the end of each path is '
            'non-None exactly in update mode.',
 }
+
+# clauses added after round 6 and the double-blind sweep (DESIGN 11b)
+MORE2 = {
+    'C16': " CATS: in concatenate's package phase names(target fields) and the still-needed names partition the keys of `fields` on every "
+           "path, every name left is declared at the end, and the row builder is given all keys of `fields` and the mapping the schema was "
+           "built with.",
+    'C09': " Guard roles: a test of the counter attribute enclosing its write has positive polarity; inside a scan over the descriptors a "
+           "per-resource counter is written under the name-equality test; set_attr stores and get_attr returns the stored value; every chunk "
+           "hash_handler reads reaches the digest (text as UTF-8 bytes).",
+    'C20': " describe iff the table exists; a path that drops and a path that keeps the existing table both exist; the fixers collected for "
+           "array / object fields are applied in list order to the value under the field name; strize is the documented (kind -> result) "
+           "table, jsonize is json.dumps, sqlite declares array / object columns as string.",
+    'C15': " NEW-FIELDS: the package phase of add_computed_field declares one field per spec ({name, type=get_type(...)} or a copy of the "
+           "target descriptor).",
+    'C02': " UPK: update_package removes `resources` from the user's metadata before updating the descriptor. R18t: the field join declares "
+           "for an aggregate takes its type from the aggregator or from the source field and carries the source field's properties exactly "
+           "for copyProperties aggregators. CATS and NEW-FIELDS as in C16 / C15; an any-typed source makes a computed field `any`.",
+    'C07': " The zone name reaches timezone(offset, name) only under `name is not None`.",
+    'C11': " median and update_counter are decided path by path (None / even / odd; nothing new / text as one item / running value made a "
+           "Counter); R18t as in C02.",
+    'C18': " (f) also: the test of the collecting loop is constant-true (or `(row := q.get()) is not None`), so the loop ends at the marker only.",
+}
 for _pid, _c in CHECKS.items():
-    _c['text'] = _c['text'] + MORE.get(_pid, '') + GEN
+    _c['text'] = _c['text'] + MORE.get(_pid, '') + MORE2.get(_pid, '') + GEN
     if 'generic defect-pattern rules' not in _c['technique']:
         _c['technique'] = _c['technique'] + '; generic defect-pattern rules on the anchored files (shared class state, late-binding closures, groupby runs, run idempotence)'
 
